@@ -161,6 +161,15 @@ struct Driver {
       static const int kSig[] = {SIGINT, SIGTERM, SIGHUP};
       p.on_signal = kSig[H(3)] * 100 + (int)H(3);   // signal*100 + child reaction
     }
+    if (prof.damage) {
+      p.garbage_child_output = H(3) == 0;
+      if (H(3) == 0) {
+        static const char* kPieces[] = {"%", "%%", "%s", "%f", "%t", "%r", "%u", "%p", "%o", "%c", "%e", "%w", "%E", "%W", "%P", "%x", "%", "$", "$$", "${", "}", "$started", "$finished", "${total}", "$description", "$eta", "$rate", "$bogus", " ", "[", "]", "\x1b[K", "\xff", "abc", "$\n", "$:"};
+        int np = (int)H(8);
+        for (int i = 0; i < np; i++) p.status_fmt += kPieces[H(36)];
+        if (p.status_mode == 0) p.status_mode = 1 + (int)H(2);
+      }
+    }
     if (prof.buggify && H(2) == 0) {
       p.fp.pm_eintr = 0; (void)H(3);  /* EINTR from read/waitpid cannot happen: ninja blocks its handled signals outside ppoll */ p.fp.pm_short_read = (int)H(3) * 100;
       p.fp.pm_spurious_wake = (int)H(3) * 30; p.fp.pm_eagain_token = (int)H(3) * 100;
@@ -982,7 +991,6 @@ struct Driver {
       std::string old = s.outs[0];
       s.outs[0] += "r";
       if (!s.depfile.empty()) s.depfile = s.outs[0] + ".d";
-      if (s.rsp) s.rsp_path = s.outs[0] + ".rsp";
       Note("manifest edit: output " + old + " renamed to " + s.outs[0]);
     }
     w.WriteManifest();
@@ -1141,6 +1149,47 @@ struct Driver {
     w.dd_override.erase(dd.path);
     if (dd.producer < 0) w.k.WriteFile(dd.path, w.SourceContent(dd.path), true);
     else dirty_producer();
+  }
+
+  // C13: storage damage - any bytes may be found in the logs, depfiles, dyndep
+  // files or a (re)generated manifest.
+  std::string DamageBytes(std::string b) {
+    uint32_t kind = H(7);
+    if (b.empty()) kind = 1;
+    switch (kind) {
+      case 0: b.resize(H((uint32_t)b.size() + 1)); break;                                 // truncate
+      case 1: { int n = 1 + (int)H(64); for (int i = 0; i < n; i++) b += (char)H(256); break; }   // garbage tail
+      case 2: { size_t at = H((uint32_t)b.size()); b[at] = (char)(b[at] ^ (1 << H(8))); break; }  // bit flip
+      case 3: b.append(1 + H(64), '\0'); break;                                           // zero tail (size extended)
+      case 4: { size_t a = H((uint32_t)b.size()), n = 1 + H(64); b.insert(a, b.substr(a, n)); break; }   // duplicated block
+      case 5: { size_t at = H((uint32_t)b.size()); size_t n = 1 + H(8); for (size_t i = 0; i < n && at + i < b.size(); i++) b[at + i] = (char)H(256); break; }  // overwritten field
+      default: { size_t at = H((uint32_t)b.size()); uint32_t v = H(5) == 0 ? 0xffffffffu : H(4) == 0 ? 0x80000000u | H(64) : H(1 << 20); if (at + 4 <= b.size()) memcpy(&b[at / 4 * 4 < b.size() - 3 ? at / 4 * 4 : 0], &v, 4); break; }   // a whole 32-bit field
+    }
+    return b;
+  }
+  void DoDamage() {
+    std::vector<std::string> files;
+    std::string d = w.sc.LogDir();
+    if (w.k.Exists(d + ".ninja_log")) files.push_back(d + ".ninja_log");
+    if (w.k.Exists(d + ".ninja_deps")) { files.push_back(d + ".ninja_deps"); files.push_back(d + ".ninja_deps"); }
+    for (const Stmt& s : w.sc.stmts) if (s.alive && !s.depfile.empty() && w.k.Exists(s.depfile)) files.push_back(s.depfile);
+    for (auto& dd : w.sc.dyndeps) if (w.k.Exists(dd.path)) files.push_back(dd.path);
+    files.push_back("build.ninja");
+    std::string f = files[H((uint32_t)files.size())];
+    std::string b, orig;
+    w.k.ReadFile(f, &b);
+    orig = b;
+    w.k.WriteFile(f, DamageBytes(b), true);
+    Note("damage " + f);
+    rr.stats.faults["storage_damage"]++;
+    rr.stats.nontrivial["C13"] = true;
+    DoBuild();
+    // sources of truth are put back so that the history stays productive
+    if (f == "build.ninja" || w.sc.FindDyndep(f)) {
+      if (f == "build.ninja") w.WriteManifest();
+      else if (w.sc.FindDyndep(f)->producer < 0) w.k.WriteFile(f, w.SourceContent(f), true);
+      dead = false;
+    }
   }
 
   // A regular file sits where an output directory would have to be created
@@ -1302,7 +1351,7 @@ struct Driver {
       if (i == 0 && H(8) != 0) { DoBuild(); continue; }
       int ws[] = {prof.w_build, prof.w_edit, prof.w_touch, prof.w_del_out, prof.w_change_cmd, prof.w_change_rsp,
                   prof.w_regen, prof.w_del_log, prof.w_del_depfile, prof.w_clean, prof.w_cleandead, prof.w_tool_ro,
-                  prof.w_dry, prof.w_manifest_edit, prof.w_edit_includes, prof.w_empty_source, prof.w_inflate_log, prof.w_include_churn, prof.w_block_dir, invalid_dyndep_run ? 6 : 0};
+                  prof.w_dry, prof.w_manifest_edit, prof.w_edit_includes, prof.w_empty_source, prof.w_inflate_log, prof.w_include_churn, prof.w_block_dir, invalid_dyndep_run ? 6 : 0, prof.damage ? 8 : 0};
       int total = 0;
       for (int x : ws) total += x;
       int c = (int)H((uint32_t)total), op = 0;
@@ -1328,6 +1377,7 @@ struct Driver {
         case 17: DoIncludeChurn(); break;
         case 18: DoBlockDir(); break;
         case 19: DoInvalidDyndep(); break;
+        case 20: DoDamage(); break;
       }
     }
     // histories end with a build so that every change is exercised
